@@ -153,6 +153,27 @@ func init() {
 			pos(c, &c15Pos{Priv: r.Bytes(32)})
 		}
 
+		c.Phase("addresses-with-inner-runs-of-1") // key hashes solved so that the address text has a run of '1' characters (zero digits) of a chosen length at a chosen inner position
+		{
+			n := uint64(0)
+			for _, ver := range []byte{0x00, 0x6f} {
+				for _, run := range []int{1, 2, 5, 9, 10, 11, 12, 19, 20, 21} {
+					for start := 6; start+run <= 30; start++ {
+						n++
+						if !c.Case(n) {
+							continue
+						}
+						if h := c15HashWithZeroDigits(c.Rand(n), ver, start, run); h != nil {
+							c.Count("pos:inner-run-of-1:solved")
+							pos(c, &c15Pos{Hash: h})
+						} else {
+							c.Count("pos:inner-run-of-1:not-solvable")
+						}
+					}
+				}
+			}
+		}
+
 		c.Phase("hashes-with-template-bytes") // key hashes that contain, at every offset, the byte values of the opcodes and the push length of the P2PKH template itself
 		n := uint64(0)
 		for _, pat := range [][]byte{{0x88, 0xac}, {0x76, 0xa9}, {0xa9, 0x14}, {0x14}, {0x88}, {0xac}, {0x6a}, {0x00, 0x63}, {0x4c}, {0x4e}} {
@@ -702,4 +723,60 @@ func c15JudgeStr(c *mon.Ctx, in *c15Str) {
 			return map[string]any{"string": s, "origin": in.Origin, "class": in.Class, "reference_accepts": refOK, "reference_reason": reason, "library_entry_points_accepting": accepted}
 		})
 	}
+}
+
+// c15HashWithZeroDigits returns a 20-byte hash whose Base58Check text for the
+// given version byte has zero digits ('1' characters) exactly at the positions
+// start .. start+run-1 counted from the end of the text, and non-zero digits
+// next to them (nil when the construction does not land on the version byte).
+// The checksum only reaches the last six characters (2^33 < 58^6), so the
+// digits from position 6 on are fixed by version and hash alone.
+func c15HashWithZeroDigits(r *prng.R, ver byte, start, run int) []byte {
+	b58 := big.NewInt(58)
+	base := new(big.Int).SetBytes(append([]byte{ver}, r.Bytes(24)...)) // a random 25-byte number with this version byte
+	if ver == 0 {
+		base.SetBytes(append([]byte{0, byte(1 + r.Intn(200))}, r.Bytes(23)...))
+	}
+	// digits of base, least significant first
+	var d []int64
+	for x := new(big.Int).Set(base); x.Sign() > 0; {
+		m := new(big.Int)
+		x.DivMod(x, b58, m)
+		d = append(d, m.Int64())
+	}
+	if start+run+1 >= len(d) {
+		return nil
+	}
+	for i := 6; i < len(d)-3; i++ { // keep the top digits (they carry the version byte)
+		if i >= start && i < start+run {
+			d[i] = 0
+		} else if d[i] == 0 || i == start-1 || i == start+run {
+			d[i] = int64(1 + r.Intn(57))
+		}
+	}
+	m := new(big.Int)
+	for i := len(d) - 1; i >= 6; i-- {
+		m.Mul(m, b58)
+		m.Add(m, big.NewInt(d[i]))
+	}
+	m.Mul(m, new(big.Int).Exp(b58, big.NewInt(6), nil))
+	a := new(big.Int).Add(m, new(big.Int).Sub(new(big.Int).Lsh(big.NewInt(1), 32), big.NewInt(1)))
+	a.Rsh(a, 32) // ceil(m / 2^32): version byte and hash
+	ab := a.Bytes()
+	full := make([]byte, 21)
+	if len(ab) > 21 {
+		return nil
+	}
+	copy(full[21-len(ab):], ab)
+	if full[0] != ver {
+		return nil
+	}
+	// confirm on the reference encoding that the run is where it was asked for
+	text := refaddr.CheckEncode(ver, full[1:])
+	for i := 0; i < run; i++ {
+		if k := len(text) - 1 - (start + i); k < 0 || text[k] != '1' {
+			return nil
+		}
+	}
+	return full[1:]
 }
